@@ -136,4 +136,22 @@ theorem tie_headDec (delta : Int) : Gen.C10.headDec delta = delta - 1 := rfl
 /-- the head test of call_out() is a test of the decremented value: `headDue d` iff `headDec d = 0` -/
 theorem tie_headDue_dec (delta : Int) : Gen.C10.headDue delta = decide (Gen.C10.headDec delta = 0) := rfl
 
+/-! ### owner tests (round 4) -/
+
+/-- call_out(): `cop->ob && (cop->ob->flags & O_DESTRUCTED)` -/
+theorem tie_dropCond (a b : Bool) : Gen.C10.dropCond a b = (a && b) := rfl
+
+/-- get_all_call_outs: `if (cop->ob && (cop->ob->flags & O_DESTRUCTED)) continue;` -/
+theorem tie_infoSkip (a b : Bool) : Gen.C10.infoSkip a b = (a && b) := rfl
+
+/-- get_all_call_outs: the counting loop and the row loop agree (the array has exactly one element per row) -/
+theorem tie_infoCount (a b : Bool) : Gen.C10.infoCount a b = !Gen.C10.infoSkip a b := by
+  cases a <;> cases b <;> rfl
+
+/-- the C-shaped `fireOne` is the one the theorems are about -/
+theorem fireOne_eq_spec (sc : Scripts) (w : World) (cop : Entry) : fireOne sc w cop = fireOneSpec sc w cop := by
+  unfold fireOne fireOneSpec
+  rw [tie_dropCond]
+  cases cop.c.fp <;> cases isDead w cop.c.owner <;> rfl
+
 end NV.C10
